@@ -32,16 +32,21 @@ def findReading (script : List (Option Nat)) (prev v : Int) (p : Nat) : Nat → 
 
 def setAt (xs : List Nat) (i v : Nat) : List Nat := xs.set i v
 
-/-- replay of the observed values in global (= value) order -/
-def replay (scripts : List (List (Option Nat))) : List (Nat × Int) → Int → List Nat → Option String
-  | [], _, _ => none
-  | (t, v) :: rest, prev, pos =>
+/-- replay of the observed values in global (= value) order: either a reason why no interleaving produces
+them, or the witness schedule — for every value the three atomic steps `load; compute (reading); cas` of the
+model (`Timestamp.step`), in global order (a failed CAS round leaves no trace in the returned values, so the
+witness needs none). -/
+def replay (scripts : List (List (Option Nat))) : List (Nat × Int) → Int → List Nat → List Ev → Except String (List Ev)
+  | [], _, _, acc => .ok acc.reverse
+  | (t, v) :: rest, prev, pos, acc =>
     let script := scripts.getD t []
     let p0 := pos.getD t 0
     -- readings beyond the script repeat, so searching up to its length + 1 is complete
     match findReading script prev v p0 (script.length + 2 - min p0 (script.length + 1)) with
-    | none => some s!"value {v} of thread {t} is not compute_next({prev}, any remaining reading)"
-    | some p => replay scripts rest v (setAt pos t (p + 1))
+    | none => .error s!"value {v} of thread {t} is not compute_next({prev}, any remaining reading)"
+    | some p =>
+      let clock := (readingAt script p).map microsAsI64
+      replay scripts rest v (setAt pos t (p + 1)) (.cas t :: .compute t clock :: .load t :: acc)
 
 def run (case impl : String) : String :=
   match words case with
@@ -66,9 +71,13 @@ def run (case impl : String) : String :=
         let distinct := (sorted.zip sorted.tail).all (fun (a, b) => a.2 < b.2)
         if !perThreadOk then "REJECT per-thread-order"
         else if !distinct then "REJECT duplicate"
-        else match replay scs sorted 0 (List.replicate scs.length 0) with
-          | none => implT
-          | some why => "REJECT " ++ why
+        else match replay scs sorted 0 (List.replicate scs.length 0) [] with
+          | .error why => "REJECT " ++ why
+          | .ok evs =>
+            -- the witness schedule is run through the MODEL's state machine (`Timestamp.run`, the object of
+            -- the C18 theorems): its log of successful CASes must be exactly the observed values
+            if (Timestamp.run St.init evs).log == sorted then implT
+            else "REJECT model-run-differs"
   | _ => "bad-case"
 
 end ScyllaVerif.Drive.C18
